@@ -450,6 +450,25 @@ InlinePAChecks(r) ==
                                            /\ \A k \in 1..Kn, t \in 1..Tn : REq(r.out[k][t], Post(r.ms, r.me, r.w, p)[k][t])>>,
                   <<"sums_to_one", \A t \in 1..Tn : RSum([k \in 1..Kn |-> r.out[k][t]]) = <<1, 1>>>> >>
 
+(* ---- gaussx : weighted Gaussian moments, exact on a lattice with a (possibly huge) common offset (C08) ---- *)
+\* x_n = c + u_n with integer u (N x D), weights g_n = r.g[n] / r.gden (integers), saliency folded into g.
+\* mean - c = sum g u / sum g ; covariance = sum g (u - m)(u - m)^T / sum g (translation equivariant: the offset must
+\* not matter).  r.mean_c : code mean minus offset (rationals), r.cov : rationals (full D x D, diagonal D, spherical 1)
+GaussXChecks(r) ==
+  IF r.exc # "" THEN << <<"raises", FALSE>> >>
+  ELSE LET N == Len(r.u) D == Len(r.u[1])
+           G == SumSeq(r.g)
+           S1(a) == SumSeq([n \in 1..N |-> r.g[n] * r.u[n][a]])
+           S2(a, b) == SumSeq([n \in 1..N |-> r.g[n] * r.u[n][a] * r.u[n][b]])
+           \* covariance numerator / denominator: (S2 G - S1 S1) / G^2
+           CN(a, b) == S2(a, b) * G - S1(a) * S1(b)
+           ok(c, num, den) == IsRatP(c) /\ c[1] * den = c[2] * num
+       IN << <<"mean", \A a \in 1..D : ok(r.mean_c[a], S1(a), G)>>,
+             <<"covariance",
+                 CASE r.gtype = "full" -> \A a, b \in 1..D : ok(r.cov[a][b], CN(a, b), G * G)
+                   [] r.gtype = "diagonal" -> \A a \in 1..D : ok(r.cov[a], CN(a, a), G * G)
+                   [] r.gtype = "spherical" -> ok(r.cov[1], SumSeq([a \in 1..D |-> CN(a, a)]), G * G * D)>> >>
+
 Checks(r) == CASE r.kind = "bayesx" -> BayesXChecks(r) [] r.kind = "posterior" -> PostChecks(r)
                [] r.kind = "init" -> InitChecks(r) [] r.kind = "flag" -> FlagChecks(r)
                [] r.kind = "weightx" -> WeightXChecks(r)
@@ -458,6 +477,7 @@ Checks(r) == CASE r.kind = "bayesx" -> BayesXChecks(r) [] r.kind = "posterior" -
                [] r.kind = "mstep" -> MStepChecks(r) [] r.kind = "qform" -> QFormChecks(r) [] r.kind = "loop" -> LoopChecks(r)
                [] r.kind = "fixedpoint" -> FixedPointChecks(r)
                [] r.kind = "inlinepa" -> InlinePAChecks(r)
+               [] r.kind = "gaussx" -> GaussXChecks(r)
 NT(r) == CASE r.kind = "posterior" -> PostNT(r)
            [] r.kind = "bayesx" -> r.exc = "" /\ Len(r.w) >= 2
            [] r.kind = "twin" -> TwinNT(r)
